@@ -71,7 +71,7 @@ def styleVal (fill stroke sw : PyStr) : PyStr :=
 /-- `svg_node` : `<circle cx="{}" cy="{}" r="{}" style="fill:{};stroke:{};stroke-width:{}"/>\n` -/
 def svgNode (x y size color sw : PyStr) : List Piece :=
   [.etag py!"circle" [att py!"cx" x, att py!"cy" y, att py!"r" size,
-      att py!"style" (styleVal color py!"black" sw)] [],
+      att py!"style" (styleVal (escAttr color) py!"black" sw)] [],
    .chr 10]
 
 /-- one sector of `svg_pie_chart_node`:
@@ -80,7 +80,7 @@ def svgPieSector (t : Nat → PyStr) (color sw : PyStr) : List Piece :=
   [.etag py!"path"
      [att py!"d" (py!"M " ++ (t 0 ++ (32 :: (t 1 ++ (py!" A " ++ (t 2 ++ (32 :: (t 3 ++ (py!" 0 " ++ (t 4 ++
         (py!" 1 " ++ (t 5 ++ (32 :: (t 6 ++ (py!" L " ++ (t 7 ++ (32 :: t 8))))))))))))))))),
-      att py!"style" (styleVal color py!"black" sw)] [32],
+      att py!"style" (styleVal (escAttr color) py!"black" sw)] [32],
    .chr 10]
 
 /-- `colors[index % n_colors]` -/
@@ -105,7 +105,7 @@ def svgPieChartNode (ν : Nums) (i side : Nat) (row : List Rat) (colors : List P
 /-- `svg_edge` : `<path stroke-width="{}" stroke="{}" d="M {} {} {} {}"/>\n` -/
 def svgEdge (t : Nat → PyStr) (color : PyStr) : List Piece :=
   [.etag py!"path"
-     [att py!"stroke-width" (t 0), att py!"stroke" color,
+     [att py!"stroke-width" (t 0), att py!"stroke" (escAttr color),
       att py!"d" (py!"M " ++ (t 1 ++ (32 :: (t 2 ++ (32 :: (t 3 ++ (32 :: t 4)))))))] [],
    .chr 10]
 
@@ -115,9 +115,9 @@ def svgEdgeDirected (p1 p2 : Rat × Rat) (t : Nat → PyStr) (color : PyStr) : L
   if p2.1 - p1.1 = 0 ∧ p2.2 - p1.2 = 0 then []
   else
     [.etag py!"path"
-       [att py!"stroke-width" (t 0), att py!"stroke" color,
+       [att py!"stroke-width" (t 0), att py!"stroke" (escAttr color),
         att py!"d" (py!"M " ++ (t 1 ++ (32 :: (t 2 ++ (32 :: (t 3 ++ (32 :: t 4))))))),
-        att py!"marker-end" (py!"url(#arrow-" ++ (color ++ py!")"))] [],
+        att py!"marker-end" (py!"url(#arrow-" ++ (escAttr color ++ py!")"))] [],
      .chr 10]
 
 /-- position of the names -/
@@ -139,11 +139,11 @@ def svgText (t : Nat → PyStr) (text : PyStr) (position : NamePos) : List Piece
 def svgMarker (color : PyStr) : List Piece :=
   [.otag py!"defs" [] [],
    .otag py!"marker"
-     [att py!"id" (py!"arrow-" ++ color), att py!"markerWidth" py!"10", att py!"markerHeight" py!"10",
+     [att py!"id" (py!"arrow-" ++ escAttr color), att py!"markerWidth" py!"10", att py!"markerHeight" py!"10",
       att py!"refX" py!"9", att py!"refY" py!"3",
       ⟨10 :: List.replicate 16 32, py!"orient", 34, py!"auto"⟩] [32],
    .chr 10,
-   .etag py!"path" [att py!"d" py!"M0,0 L0,6 L9,3 z", att py!"fill" color] [],
+   .etag py!"path" [att py!"d" py!"M0,0 L0,6 L9,3 z", att py!"fill" (escAttr color)] [],
    .ctag py!"marker" [], .ctag py!"defs" [], .chr 10]
 
 def xmlns : PyStr := py!"http://www.w3.org/2000/svg"
@@ -167,11 +167,12 @@ def setMany (arr : List α) (kv : List (Nat × α)) : Except PyErr (List α) :=
 /-- `get_label_colors` -/
 def getLabelColors : LabelColors → Except PyErr (List PyStr)
   | .none => .ok standardColors
-  | .list l => .ok l
+  | .list l => .ok (l.map (npU none))              -- `np.array(label_colors)`
   | .dict kv =>
     match kv with
     | [] => .error .valueError           -- max() of an empty sequence
-    | _ => setMany (List.replicate ((kv.map (·.1)).foldl max 0 + 1) py!"black") kv
+    | _ => setMany (List.replicate ((kv.map (·.1)).foldl max 0 + 1) py!"black")
+             (kv.map fun p => (p.1, npU (some 64) p.2))    -- an array of dtype 'U64'
 
 inductive Labels
   /-- a list (length checked by the code) or an array -/
@@ -207,7 +208,7 @@ def labelArray (n : Nat) : Labels → Except PyErr (List Int)
 def colorsFromLabels (n : Nat) (labs : List Int) (colors : List PyStr) (nodeColor : PyStr) : List PyStr :=
   tab n fun i =>
     let l := labs.getD i (-1)
-    if l ≥ 0 then colors.getD (l % (colors.length : Int)).toNat [] else nodeColor
+    if l ≥ 0 then npU (some 64) (colors.getD (l % (colors.length : Int)).toNat []) else npU (some 64) nodeColor
 
 /-- `get_node_colors(n, labels, scores, membership, node_color, label_colors)`;
     `side` distinguishes rows and columns of a bipartite graph in the number slots -/
@@ -228,7 +229,7 @@ def getNodeColors (ν : Nums) (side n : Nat) (labels : Option Labels) (scores : 
     match scores with
     | some (.dict keys) =>
       if keys.isEmpty then .error .valueError      -- `np.min` of an empty array
-      else setMany (List.replicate n nodeColor) (keys.map fun k => (k, scoreColor ν k side))
+      else setMany (List.replicate n (npU (some 64) nodeColor)) (keys.map fun k => (k, scoreColor ν k side))
     | some (.arr len isList) =>
       if isList ∧ len ≠ n then .error .valueError
       else if len = 0 then .error .valueError        -- `np.min` of an empty array
@@ -238,7 +239,7 @@ def getNodeColors (ν : Nums) (side n : Nat) (labels : Option Labels) (scores : 
         match lc with
         | .dict _ => .error .typeError
         | _ => getLabelColors lc
-      else .ok (List.replicate n nodeColor)
+      else .ok (List.replicate n (npU (some 64) nodeColor))      -- `np.array(n * [node_color]).astype('U64')`
 
 /-! ### `rescale` (exact arithmetic; decides only whether two nodes are drawn at the same place) -/
 
@@ -356,7 +357,7 @@ def edgeLabelStep (nRow nCol : Nat) (es : List Entry) (colors : List PyStr) (st 
 def edgeColorArray (m : Nat) (data : List Int) (colors : List PyStr) (edgeColor : PyStr) : List PyStr :=
   tab m fun k =>
     let v := if k < data.length then data.getD k (-1) else -1
-    if v ≥ 0 then colors.getD v.toNat [] else edgeColor
+    if v ≥ 0 then npU (some 64) (colors.getD v.toNat []) else npU (some 64) edgeColor   -- an array of dtype 'U64'
 
 /-- two stored entries at the same place -/
 def hasDuplicate : List Entry → Bool
@@ -686,7 +687,7 @@ deriving Repr
 def dendroPaths (ν : Nums) (t : Nat) (lineColor : PyStr) : List Piece :=
   (List.range 3).map fun k =>
     .etag py!"path"
-      [att py!"stroke-width" (ν (.dpath 0) t k), att py!"stroke" lineColor,
+      [att py!"stroke-width" (ν (.dpath 0) t k), att py!"stroke" (escAttr lineColor),
        att py!"d" (py!"M " ++ (ν (.dpath 1) t k ++ (32 :: (ν (.dpath 2) t k ++ (32 :: (ν (.dpath 3) t k ++
           (32 :: ν (.dpath 4) t k)))))))] [32]
 
@@ -728,7 +729,7 @@ def dendroStep (ν : Nums) (a : DendroArgs) (n : Nat) (st : TreeState) (t : Nat)
   let (_, position) ← dpop position j
   let (l1, label) ← dpop st.label i
   let (l2, label) ← dpop label j
-  let lineColor ← if l1 = l2 then modIndexNp a.colors l1 else pure a.color
+  let lineColor ← if l1 = l2 then modIndexNp (a.colors.map (npU none)) l1 else pure a.color
   pure ⟨st.out ++ dendroPaths ν t lineColor, dset position (n + t) (), dset label (n + t) l1⟩
 
 /-- the tree loop: `for t in range(n - 1):` -/
